@@ -568,8 +568,13 @@ func (c *Compiler) writeNodeDEQ(node, parent *node, recv, path, lv, rv string, d
 	}
 
 	if node.ptr {
-		c.wl("if (", lv, "==nil && ", rv, "!=nil) || (", lv, "!=nil && ", rv, "==nil) {return false}")
-		c.wl("if ", lv, "!=nil && ", rv, "!=nil {")
+		// A scalar or bytes field is addressed through its parent: the nil test is about the field itself.
+		plv, prv := lv, rv
+		if (node.typ == typeBasic || (node.typ == typeSlice && node.typn == "[]byte")) && len(node.name) > 0 {
+			plv, prv = lv+"."+node.name, rv+"."+node.name
+		}
+		c.wl("if (", plv, "==nil && ", prv, "!=nil) || (", plv, "!=nil && ", prv, "==nil) {return false}")
+		c.wl("if ", plv, "!=nil && ", prv, "!=nil {")
 	}
 
 	switch node.typ {
